@@ -2,5 +2,6 @@ SPECIFICATION Spec
 CONSTANT Dev = "digitize_strict"
 INVARIANT FusionSound
 INVARIANT LpNormSound
+INVARIANT MeanSound
 INVARIANT DigitizeLaws
 CHECK_DEADLOCK FALSE
